@@ -78,15 +78,31 @@ def local_defs(fn):
 
 
 def miss_shape(prog, name):
-    """R1: the value Client.<name> returns on a miss, from the source."""
+    """R1: the value Client.<name> returns on a miss, as a term over its parameters.  Derived by interpreting the
+    method end to end against the reply of a server that has none of the keys (`END`)."""
+    from .rules_C05 import script_eval, Val, _show
+    from .colls import DictV, deref
+    from .paths import TupleV
+
     f = prog.method("Client", name)
-    rets = sorted([r for r in walk_no_nested(f.node) if isinstance(r, ast.Return) and r.value is not None], key=lambda r: r.lineno)
-    final = rets[-1].value if rets else None
-    if isinstance(final, ast.Call) and isinstance(final.func, ast.Attribute) and final.func.attr == "get" and len(final.args) == 2 and isinstance(final.func.value, ast.Call) and call_name(final.func.value) == "self._fetch_cmd":
-        return f, term(final.args[1], f, local_defs(f)), "single"
-    if isinstance(final, ast.Call) and call_name(final) == "self._fetch_cmd":
-        return f, ("emptydict",), "multi"
-    raise AnalysisError("C07.R1: cannot derive the miss value of Client.%s from `%s`" % (name, node_src(final) if final is not None else None))
+    outs = script_eval(prog, name, (b"END",), full=True)
+    vals = {deref(v, s) for s, v, t in outs.of("ret")}
+    if len(vals) != 1 or outs.of("exc"):
+        raise AnalysisError("C07.R1: cannot derive the miss value of Client.%s (outcomes: returns %s, raises %s)" % (name, sorted(map(_show, vals)), sorted({str(e.cls) for s, e, t in outs.of("exc")})))
+
+    def to_term(v):
+        if isinstance(v, Val) and v.tag.startswith("arg:"):
+            return ("param", v.tag[4:])
+        if isinstance(v, Const):
+            return ("const", repr(v.v))
+        if isinstance(v, TupleV):
+            return ("tuple",) + tuple(to_term(x) for x in v.items)
+        if isinstance(v, DictV) and not v.items:
+            return ("emptydict",)
+        return ("expr", _show(v))
+
+    v = next(iter(vals))
+    return f, to_term(v), ("multi" if isinstance(v, DictV) else "single")
 
 
 def failure_capable(prog):
@@ -181,21 +197,8 @@ def run(chk):
     if len(fetch) != 1:
         raise AnalysisError("C07: expected exactly one fetch exchange function, found %s" % [f.qualname for f in fetch])
     fetch = fetch[0]
-    hret = []
-    for h in [n for n in walk_no_nested(fetch.node) if isinstance(n, ast.ExceptHandler)]:
-        for r in ast.walk(h):
-            if isinstance(r, ast.Return):
-                hret.append((h, r))
-    if not hret:
-        r2.fail("Client._fetch_cmd:no-swallow-return", "the fetch exchange has no handler that returns when ignore_exc is set", fn=fetch)
-    for h, r in hret:
-        ok = isinstance(r.value, ast.Dict) and not r.value.keys
-        r2.expect(ok, "Client.%s: the ignore_exc handler returns the empty mapping, so .get(key, D) yields the miss value D" % fetch.name, "Client.%s:failure-value" % fetch.name, "the ignore_exc handler of Client.%s returns `%s` instead of an empty dict: after a failure part-way through a reply, items already parsed are returned as if the call had succeeded (and single-key reads return a value instead of the default)" % (fetch.name, node_src(r.value) if r.value is not None else None), fn=fetch, node=r)
-    for m in READS:
-        f = shapes[m][0]
-        calls = [c for c in walk_no_nested(f.node) if isinstance(c, ast.Call) and call_name(c) == "self." + fetch.name]
-        r2.expect(len(calls) == 1, "Client.%s reads through %s" % (m, fetch.name), "Client.%s:not-through-fetch" % m, "Client.%s does not go through the fetch exchange" % m, fn=f)
-
+    # (for Client itself, failure value == miss value is decided by R5: every read method interpreted end to end against
+    # 17 fault plans must return the miss value)
     # ---- PooledClient: the value returned when the delegate call fails and ignore_exc is set
     from . import pooled as pooled_an
 
@@ -369,7 +372,9 @@ def client_fault_rows(prog, r5):
         if f is None:
             continue
         miss = script_eval(prog, mname, (b"END",), ignore_exc=True, full=True)
-        mv = {v for s, v, t in miss.of("ret")}
+        from .colls import deref
+
+        mv = {deref(v, s) for s, v, t in miss.of("ret")}
         if len(mv) != 1 or miss.of("exc"):
             r5.undecided("Client.%s:miss-value" % mname, "the miss value of Client.%s could not be evaluated (%s)" % (mname, sorted(map(_show, mv))))
             continue
